@@ -5,6 +5,8 @@ import Ivy.Drv.Loop
 import Ivy.Drv.Select
 import Ivy.Drv.Inotify
 import Ivy.Drv.Popen
+import Ivy.Drv.Signal
+import Ivy.Drv.Raw
 
 def main (args : List String) : IO UInt32 := do
   match args with
@@ -15,4 +17,6 @@ def main (args : List String) : IO UInt32 := do
   | ["select"] => Ivy.Drv.Select.run; return 0
   | ["inotify"] => Ivy.Drv.Inotify.run; return 0
   | ["popen"] => Ivy.Drv.Popen.run; return 0
+  | ["signal"] => Ivy.Drv.Signal.run; return 0
+  | ["raw"] => Ivy.Drv.Raw.run; return 0
   | _ => IO.eprintln "usage: ivyreplay <component>"; return 2
